@@ -2,8 +2,11 @@ package block
 
 import (
 	"context"
+	"errors"
 	"fmt"
 	"time"
+
+	goheader "github.com/celestiaorg/go-header"
 )
 
 // AggregationLoop is responsible for aggregating transactions into blocks.
@@ -12,6 +15,10 @@ func (m *Manager) AggregationLoop(ctx context.Context, errCh chan<- error) {
 	height, err := m.store.Height(ctx)
 	if err != nil {
 		m.logger.Error("error while getting store height", "error", err)
+		return
+	}
+	if err := m.republishCommitted(ctx, height); err != nil {
+		errCh <- fmt.Errorf("error while handing committed blocks to the P2P stores: %w", err)
 		return
 	}
 	var delay time.Duration
@@ -143,4 +150,58 @@ func getRemainingSleep(start time.Time, interval time.Duration) time.Duration {
 	}
 
 	return time.Millisecond
+}
+
+// republishCommitted hands to the P2P stores the blocks that were committed by an earlier run of the node
+// but did not reach those stores before it died: a block is handed to them after the chain height is
+// recorded, and they write to disk in the background. The P2P stores only take what extends their head,
+// so with such a gap every later broadcast would fail and block production with it.
+func (m *Manager) republishCommitted(ctx context.Context, height uint64) error {
+	if m.headerStore == nil || m.dataStore == nil || m.headerBroadcaster == nil || m.dataBroadcaster == nil {
+		return nil
+	}
+	headerHead, err := p2pStoreHeight(ctx, m.headerStore)
+	if err != nil {
+		return fmt.Errorf("failed to read the head of the header store: %w", err)
+	}
+	for h := max(headerHead+1, m.genesis.InitialHeight); h <= height; h++ {
+		header, _, err := m.store.GetBlockData(ctx, h)
+		if err != nil {
+			return fmt.Errorf("failed to load block %d: %w", h, err)
+		}
+		header.SetCustomVerifier(m.signaturePayloadProvider)
+		if err := m.headerBroadcaster.WriteToStoreAndBroadcast(ctx, header); err != nil {
+			return fmt.Errorf("header %d: %w", h, err)
+		}
+	}
+	dataHead, err := p2pStoreHeight(ctx, m.dataStore)
+	if err != nil {
+		return fmt.Errorf("failed to read the head of the data store: %w", err)
+	}
+	for h := max(dataHead+1, m.genesis.InitialHeight); h <= height; h++ {
+		_, data, err := m.store.GetBlockData(ctx, h)
+		if err != nil {
+			return fmt.Errorf("failed to load block %d: %w", h, err)
+		}
+		if err := m.dataBroadcaster.WriteToStoreAndBroadcast(ctx, data); err != nil {
+			return fmt.Errorf("data %d: %w", h, err)
+		}
+	}
+	return nil
+}
+
+// p2pStoreHeight is the height of the store's head as recorded on disk (the store only learns its height when
+// its head is asked for), 0 for a store that holds nothing yet.
+func p2pStoreHeight[H goheader.Header[H]](ctx context.Context, s goheader.Store[H]) (uint64, error) {
+	head, err := s.Head(ctx)
+	if errors.Is(err, goheader.ErrNoHead) || errors.Is(err, goheader.ErrNotFound) {
+		return s.Height(), nil
+	}
+	if err != nil {
+		return 0, err
+	}
+	if head.IsZero() {
+		return s.Height(), nil
+	}
+	return head.Height(), nil
 }
